@@ -13,4 +13,5 @@ define(globals(), "kotlin_tables", "tool", F, "verif_kotlin_tables", "kotlin_tab
         "bool parameters mapped to JNA Boolean: the backend's documented convention, not judged", "RandomState::new stubbed; TypeContext::__verif_empty hook"],
        {"C07": ["parameter order/arity in gen_native_method_info", "struct field order and record shapes (template text)"], "C15": []},
        kani_args=["-Z", "stubbing"],
-       extra_appends=[("core/src/hir/type_context.rs", "core_hooks.rs"), ("tool/src/lib.rs", "tool_common.rs")])
+       extra_appends=[("core/src/hir/type_context.rs", "core_hooks.rs"), ("tool/src/lib.rs", "tool_common.rs")],
+       quick_elsewhere={"C15": "C07"})
